@@ -326,6 +326,10 @@ def getitem(arr, key):
         raise OutsideSubset("concrete mask on symbolic array")
     if not isinstance(key, tuple):
         key = (key,)
+    if any(k is Ellipsis for k in key):
+        i = [j for j, k in enumerate(key) if k is Ellipsis][0]
+        fill = arr.ndim - (len(key) - 1)
+        key = key[:i] + (slice(None),) * fill + key[i + 1:]
     if len(key) > arr.ndim:
         raise IndexError("too many indices for array")
     # integer / slice / fancy per axis
@@ -454,6 +458,8 @@ def reshape(arr, *shape):
     if len(shape) == 1 and isinstance(shape[0], tuple):
         shape = shape[0]
     f = arr.fn
+    if len(shape) == arr.ndim and all(sym.same_dim(a, b) for a, b in zip(shape, arr.shape)):
+        return arr
     if arr.ndim == 1 and len(shape) == 2:
         n = arr.shape[0]
         r, c = shape
@@ -634,7 +640,7 @@ def tolerant_compare(f, l, r, rel=1e-9, abs_=1e-12):
             la, ra = np.asarray(l, dtype=float), np.asarray(r, dtype=float)
         except (TypeError, ValueError):
             return f(l, r)
-        close = np.isclose(la, ra, rtol=rel, atol=abs_)
+        close = np.isclose(la, ra, rtol=rel, atol=abs_, equal_nan=True)
         if f is operator.eq:
             return bool(np.all(close))
         if f is operator.ne:
@@ -642,7 +648,7 @@ def tolerant_compare(f, l, r, rel=1e-9, abs_=1e-12):
         if f in (operator.le, operator.ge):
             return bool(np.all(f(la, ra) | close))
         return bool(np.all(f(la, ra) & ~close))
-    close = math.isclose(lf, rf, rel_tol=rel, abs_tol=abs_)
+    close = math.isclose(lf, rf, rel_tol=rel, abs_tol=abs_) or (lf != lf and rf != rf)
     if f is operator.eq:
         return close
     if f is operator.ne:
@@ -819,7 +825,11 @@ def intrinsic(interp, f, args, kwargs, node, frame):
                 return mk(z3.And(ts) if n == "forall" else z3.Or(ts))
             return all(vals) if n == "forall" else any(vals)
         k = z3.Int(ctx.fresh_name("q"))
-        b = interp.call_value(body, [Sym(k)], {})
+        ctx.bound_depth = getattr(ctx, "bound_depth", 0) + 1
+        try:
+            b = interp.call_value(body, [Sym(k)], {})
+        finally:
+            ctx.bound_depth -= 1
         rng = z3.And(k >= lift(lo), k < lift(hi))
         if n == "forall":
             return mk(z3.ForAll([k], z3.Implies(rng, sym.truth(b))))
@@ -1054,3 +1064,37 @@ def while_with_invariant(interp, node, frame, spec):
     if interp.truth_value(cond):
         raise PathEnd()
     interp.exec_block(node.orelse, frame)
+
+
+# ----------------------------------------------------------------------------
+# additional NumPy models (wave 1: em.py)
+
+@model(np.divide, np.true_divide)
+def np_divide(interp, a, b):
+    return interp.binop(operator.truediv, a, b)
+
+
+@model(np.multiply)
+def np_multiply(interp, a, b):
+    return interp.binop(operator.mul, a, b)
+
+
+@model(np.real)
+def np_real(interp, a):
+    if is_sym(a) or isinstance(a, fractions.Fraction):
+        return a          # symbolic values are real numbers
+    return np.real(a)
+
+
+@model(np.imag)
+def np_imag(interp, a):
+    if is_sym(a) or isinstance(a, fractions.Fraction):
+        return 0
+    return np.imag(a)
+
+
+@model(np.isreal)
+def np_isreal(interp, a):
+    if is_sym(a) or isinstance(a, fractions.Fraction):
+        return True
+    return np.isreal(a)
